@@ -390,7 +390,8 @@ def fulfill (L : Lang) : Nat → Store → Nat → Except Err (Store × Bool)
             | _ => .ok (setConstr σ1 c (.elim ref alts' ful), ful)
         | _ => .error (.internal "fulfill:constraint changed kind")
 
-/-- `EliminationConstraint.minimize()` (type.py:1031-1049) -/
+/-- `EliminationConstraint.minimize()` (type.py:1031-1049); the kept alternatives are followed once more at the end: fixing a
+later alternative may have bound a variable that is an earlier alternative -/
 def minimize (L : Lang) : Nat → Store → Nat → R
   | 0, _, _ => .error .outOfFuel
   | n+1, σ, c =>
@@ -400,7 +401,7 @@ def minimize (L : Lang) : Nat → Store → Nat → R
       | .error e => .error e
       | .ok (σ1, minimized) =>
         (match getConstr σ1 c with
-         | .elim _ _ ful => .ok (setConstr σ1 c (.elim (followT σ1 ref) minimized ful))
+         | .elim _ _ ful => .ok (setConstr σ1 c (.elim (followT σ1 ref) (minimized.map (followT σ1)) ful))
          | _ => .ok σ1)
     | _ => .ok σ
 
